@@ -145,7 +145,7 @@ pub fn run(ctx: &Ctx) -> i32 {
     let mut rep = Report::new(
         ctx,
         "hostile inputs: random Unicode / control characters, token soup over the analyzer's own vocabulary (all mnemonics, registers, directives, CSR names, punctuation, 32-bit boundary numbers), \
-         line- and token-level mutations of valid programs (deleted / duplicated / swapped / truncated lines, stray characters, CR, unterminated strings, .macro without end, huge .word lists, stack-pointer and constant overflows), \
+         line- and token-level mutations of valid programs (deleted / duplicated / swapped / truncated lines, stray characters, CR, unterminated strings, .macro without end, huge .word lists, stack-pointer and constant overflows), valid programs with odd semantics (jumps and calls retargeted to arbitrary labels, returns turned into jumps and back, sp reloaded from memory / copied through a frame pointer / moved inside loops, narrow stores through it, labels named like the analyzer's internal ones), \
          structurally extreme inputs in a scaling series (n, 2n, 4n, 8n: dots, parentheses, labels, long lines, long straight-line code, many functions, branch ladders), sizes up to 64 KiB. Each input is linted through RVParser::run \
          in a child process (4 GiB address space, 8 MiB stack, 20 s watchdog, sweep limit hook) in this build of the harness, and a sample through `rva lint` in pretty / --compact / --json / --yaml / --debug / --all-files / --no-output, dev and release builds. \
          Refuting events: panic, death by signal (stack overflow, abort), sweep limit exceeded, watchdog. distinct_nontrivial = distinct inputs linted",
@@ -160,6 +160,10 @@ pub fn run(ctx: &Ctx) -> i32 {
         inputs.push(("unicode".to_string(), hostile::random_unicode(&mut rng, len)));
         inputs.push(("token-soup".to_string(), hostile::token_soup(&mut rng, len)));
         inputs.push(("mutated-program".to_string(), hostile::mutate_program(&mut rng)));
+        for _ in 0..4 {
+            let odd = hostile::semantic_mutant(&mut rng);
+            inputs.push(("semantic-mutant".to_string(), crate::print::print(&odd, &crate::print::Style::plain(), &mut Rng::new(1)).text));
+        }
     }
     for scale in [1_000usize, 2_000, 4_000, 8_000, 16_000, 32_000, 64_000] {
         for (name, text) in hostile::extremes(&mut rng, scale) {
@@ -212,6 +216,8 @@ pub fn run(ctx: &Ctx) -> i32 {
                     let class = f.next().unwrap_or("");
                     let msg = f.next().unwrap_or("");
                     let kind = if class == "sweep-limit" { "diverge" } else { "panic" };
+                    // a fixed-point loop that does not stop is named by its pass, not by the hook's line
+                    let site = if class == "sweep-limit" { if msg.contains("Liveness") { "liveness" } else if msg.contains("AvailableValue") { "available-values" } else { "dead-code" } } else { site };
                     acc.violation(format!("C06|{kind}|{site}|{class}"), format!("linting a {} input panics at {site}: {msg}", input_class(name)), replay);
                 }
                 Outcome::Died { signal, code, stderr } => {
